@@ -219,6 +219,10 @@ Defects == {
   Df("alt_payload",        "hdr",  "proof",     "proof"),
   Df("date_past",          "hdr",  "date",      "early"),
   Df("date_future",        "hdr",  "date",      "early"),
+  \* dates centuries away from the gateway's clock (beyond what a 64-bit nanosecond
+  \* duration can hold: the window test must not be done in wrapping arithmetic)
+  Df("date_far_past",      "hdr",  "date",      "early"),
+  Df("date_far_future",    "hdr",  "date",      "early"),
   Df("cred_date_mismatch", "hdr",  "date",      "early"),
   Df("wrong_region",       "hdr",  "scope",     "early"),
   Df("wrong_service",      "hdr",  "scope",     "early"),
